@@ -285,6 +285,12 @@ class Env:
                             if isinstance(t, ast.Name):
                                 sub.b[t.id] = v
                         return (sub.ev(dc.key), sub.ev(dc.value))
+                # dict(<iterable of pairs>): the pairs themselves
+                if len(ds) == 1 and isinstance(ds[0][1], ast.Call) and norm(ds[0][1].func) == 'dict' and len(ds[0][1].args) == 1 \
+                        and not ds[0][1].keywords:
+                    elem = self.iter_elem(ds[0][1].args[0])
+                    if isinstance(elem, tuple) and len(elem) == 2:
+                        return elem
         if isinstance(it, ast.Call) and norm(it.func) in ('sorted', 'list', 'reversed', 'set', 'tuple') and it.args:
             return self.iter_elem(it.args[0])
         if isinstance(it, ast.Call) and (self.ctx.res.canon(it.func, self.f) or norm(it.func)).split('.')[-1] == 'chunks' and len(it.args) == 2:
